@@ -6,15 +6,41 @@ generated ones no longer elaborate).
 -/
 import Ggql.Model.Skip
 import Ggql.Model.LockTable
+import Ggql.Model.Coerce
+import Ggql.Driver.PinnedCoerce
 namespace Ggql.Driver
 
 structure Tables where
   skip : Skip.Table
   locks : List LockTable.Access
+  outInt : Coerce.Table
+  inInt : Coerce.Table
+  outInt64 : Coerce.Table
+  inInt64 : Coerce.Table
+  outFloat : Coerce.Table
+  inFloat : Coerce.Table
+  outFloat64 : Coerce.Table
+  inFloat64 : Coerce.Table
+  outString : Coerce.Table
+  inString : Coerce.Table
+  outId : Coerce.Table
+  inId : Coerce.Table
+  outBoolean : Coerce.Table
+  inBoolean : Coerce.Table
+  outTime : Coerce.Table
+  inTime : Coerce.Table
 
 def pinnedTables : Tables :=
   { skip := Skip.tableAssign,
     -- pinned: the one unguarded site of the pinned tree (D26)
-    locks := [⟨"regField", .objMeta, false, [.fdMu], true⟩, ⟨"assureType", .objMeta, true, [.objMu], true⟩] }
+    locks := [⟨"regField", .objMeta, false, [.fdMu], true⟩, ⟨"assureType", .objMeta, true, [.objMu], true⟩],
+    outInt := Pinned.coerceOutInt, inInt := Pinned.coerceInInt,
+    outInt64 := Pinned.coerceOutInt64, inInt64 := Pinned.coerceInInt64,
+    outFloat := Pinned.coerceOutFloat, inFloat := Pinned.coerceInFloat,
+    outFloat64 := Pinned.coerceOutFloat64, inFloat64 := Pinned.coerceInFloat64,
+    outString := Pinned.coerceOutString, inString := Pinned.coerceInString,
+    outId := Pinned.coerceOutId, inId := Pinned.coerceInId,
+    outBoolean := Pinned.coerceOutBoolean, inBoolean := Pinned.coerceInBoolean,
+    outTime := Pinned.coerceOutTime, inTime := Pinned.coerceInTime }
 
 end Ggql.Driver
